@@ -62,6 +62,9 @@ def run(ctx):
             names = ["typ", "scheme", "keyid_hash_algorithms", "value"]
             same = []
             for ai, fname in enumerate(names):
+                if ai >= len(ct["args"]):
+                    same.append(False)
+                    continue
                 ra = root_ids(nb, ct["args"][ai])
                 rf = root_ids(nb, ops[fname])
                 # `value` is wrapped as PublicKeyValue(value): compare with the wrapped operand
